@@ -120,6 +120,15 @@ fn run_tape(part: &str, tape: &[u8], cx: &mut Cx) -> Res {
         _ => {
             let mut m = gen_data(&mut t);
             // the encoder writes whatever Length / Offset Size it is given
+            // lengths a confused caller (or encoder) could compute from the message's own parts
+            if let SMsg::Data { length, offset, ns_nr, data, .. } = &mut m {
+                if t.chance(25) {
+                    let h = 6 + 2 + if ns_nr.is_some() { 4 } else { 0 } + if offset.is_some() { 2 } else { 0 };
+                    let n = offset.unwrap_or(0) as usize;
+                    let cands = [h + data.len(), h + n + data.len(), data.len(), h, (h + data.len()).saturating_sub(n), h + data.len() + 2, h + data.len() - 2];
+                    *length = Some((cands[t.below(7)] & 0xffff) as u16);
+                }
+            }
             if let SMsg::Data { length, offset, .. } = &mut m {
                 if t.chance(50) {
                     *length = if t.chance(80) { Some(t.b_u16()) } else { None };
